@@ -412,6 +412,105 @@ func overflowTrial(spec trialSpec) {
 
 // ---------- child process scenarios (no re-arm hook) ----------
 
+// discardWriter takes the entries of loggers that are not under observation (TLOG's
+// "dyeingLogQueue is full" reports) off the console.
+type discardWriter struct{ n atomic.Int64 }
+
+func (w *discardWriter) Write(v []byte)   { w.n.Add(1) }
+func (w *discardWriter) NeedPrefix() bool { return true }
+
+// dyedTrials: the Dyeing* logging calls hand one ordinary entry to the logger's writer and, for a
+// dyed request, a copy to the dyeing queue (capacity 10 000, consumed by the application).  They are
+// logging calls like any other: whatever the state of the dyeing queue (empty, nearly full so that
+// the trial crosses its capacity, full with no consumer), every ordinary entry whose call returned
+// before the flush must be with the writer, once and in order.  Half of the goroutines of a trial
+// log for a dyed request, the others for an undyed one.
+func dyedTrials(trial *int) {
+	tlog := &discardWriter{}
+	rogger.GetLogger("TLOG").SetWriter(tlog)
+	q := *rogger.GetDyeingLogQueue()
+	dyed := current.ContextWithTarsCurrent(context.Background())
+	current.SetDyeingKey(dyed, "c20-dyed-user")
+	plain := current.ContextWithTarsCurrent(context.Background())
+	rec.prefix = true
+	defer func() { rec.prefix = false }()
+	drain := func() {
+		for {
+			select {
+			case <-q:
+			default:
+				return
+			}
+		}
+	}
+	drain()
+	// one dyed copy to fill the queue with (its type is not exported)
+	*trial++
+	lg.DyeingInfo(dyed, nil, "entry ", token(*trial, 0, 0))
+	if len(q) != 1 {
+		run.Inconclusive(fmt.Sprintf("dyed request did not produce a dyed copy (queue length %d)", len(q)))
+		return
+	}
+	seed := <-q
+	rogger.FlushLogger()
+	judge(trialSpec{Kind: "dyed-seed", Goroutines: 1, PerG: 1, Formatted: true, Trial: *trial}, rec.snapshot(), 0)
+	rogger.VerifResetFlush()
+	fullSeen, copies := 0, 0
+	for rep := 0; rep < run.Pick(12, 120); rep++ {
+		room := []int{cap(q), 0, 1, 7, 40, cap(q) - 3}[rep%6] // free slots of the dyeing queue when the trial starts
+		drain()
+		for len(q) < cap(q)-room {
+			q <- seed
+		}
+		*trial++
+		spec := trialSpec{Kind: "dyed", Goroutines: []int{1, 2, 4, 8}[rep%4], PerG: 5 + 3*(rep%5), Formatted: true, Occupancy: cap(q) - room, Trial: *trial}
+		rec.reset()
+		before, tl0 := len(q), tlog.n.Load()
+		var wg sync.WaitGroup
+		for g := 0; g < spec.Goroutines; g++ {
+			wg.Add(1)
+			go func(g int) {
+				defer wg.Done()
+				ctx := dyed
+				if g%2 == 1 {
+					ctx = plain
+				}
+				for i := 0; i < spec.PerG; i++ {
+					tok := token(spec.Trial, g, i)
+					switch (i + g) % 4 {
+					case 0:
+						lg.DyeingInfo(ctx, nil, "entry ", tok)
+					case 1:
+						lg.DyeingErrorf(ctx, "ext", "entry %s payload=%d", tok, i)
+					case 2:
+						lg.DyeingDebug(ctx, nil, tok)
+					default:
+						lg.DyeingWarnf(ctx, nil, "%s", tok)
+					}
+				}
+			}(g)
+		}
+		wg.Wait()
+		t0 := time.Now()
+		rogger.FlushLogger()
+		d := time.Since(t0)
+		judge(spec, rec.snapshot(), d)
+		rogger.VerifResetFlush()
+		run.Eval(1)
+		copies += len(q) - before
+		if len(q) == cap(q) {
+			fullSeen++
+		}
+		_ = tl0
+		run.Distinct(fmt.Sprintf("dyed|room=%d|g=%d|n=%d", room, spec.Goroutines, spec.PerG))
+	}
+	drain()
+	run.Set("dyed_trials_ending_with_full_dyeing_queue", fullSeen)
+	run.Set("dyed_copies_queued", copies)
+	run.Set("dyeing_queue_full_reports", tlog.n.Load())
+	run.Sample(map[string]interface{}{"trial": "dyed", "events": "dyeing queue pre-filled to capacity minus room; G goroutines (even: dyed request, odd: undyed) log through DyeingInfo/Errorf/Debug/Warnf; FlushLogger; the writer's record must hold every ordinary entry once, in order", "trials_with_full_queue": fullSeen, "full_reports": tlog.n.Load()})
+}
+
 type fileWriter struct {
 	f     *os.File
 	delay time.Duration
@@ -575,7 +674,7 @@ func main() {
 		return
 	}
 	run = vlib.Start("C20")
-	run.SetRule("in-process trials (flush re-armed by hook): natural (G in {1,4,32} goroutines x per-goroutine entries x raw/formatted x swept pause), forced (flusher held between its two selects while the last entry and the flush request arrive), occupancy (0,1,100,9999 entries queued at the flush request), overflow (more entries than the queue holds, gated writer); child processes: flush after >1 s process age with a slow writer, panic exit through CheckPanic with string/error/struct/runtime-error values, with the stack dump file uncreatable (argv[0] under /proc), and with the panic raised by a dispatcher under the real Protocol.Invoke; a second FlushLogger overlapping a draining one; occupancy and natural trials in the JSON log format. A case is a trial; distinct = distinct (kind, parameters, recorded write count) keys.")
+	run.SetRule("in-process trials (flush re-armed by hook): natural (G in {1,4,32} goroutines x per-goroutine entries x raw/formatted x swept pause), forced (flusher held between its two selects while the last entry and the flush request arrive), occupancy (0,1,100,9999 entries queued at the flush request), overflow (more entries than the queue holds, gated writer); child processes: flush after >1 s process age with a slow writer, panic exit through CheckPanic with string/error/struct/runtime-error values, with the stack dump file uncreatable (argv[0] under /proc), and with the panic raised by a dispatcher under the real Protocol.Invoke; a second FlushLogger overlapping a draining one; occupancy and natural trials in the JSON log format; Dyeing* logging calls for dyed and undyed requests with the dyeing queue empty, crossing its capacity and full. A case is a trial; distinct = distinct (kind, parameters, recorded write count) keys.")
 	run.Assume("an entry counts as 'logged before the flush' when its logging call returned before FlushLogger was called (barrier in the harness)")
 	run.Assume("a flush that takes >= the flush timeout (1 s) is not judged (inconclusive)")
 	rogger.SetLevel(rogger.DEBUG)
@@ -643,6 +742,9 @@ func main() {
 		run.Distinct(fmt.Sprintf("overflow|%d", rep))
 	}
 
+	if only == "" || only == "dyed" {
+		dyedTrials(&trial)
+	}
 	rec.prefix = false
 	// child processes
 	idx := 0
